@@ -588,6 +588,15 @@ func (self *Analyzer) importItem(node pAst.ImportStatement) ast.AnalyzedImport {
 
 	for _, item := range node.ToImport {
 		imported, moduleFound, valueFound := self.host.GetBuiltinImport(node.FromModule.Ident(), item.Ident, item.Span, item.Kind)
+		// What the host hands out must be of the kind which was asked for (a host may know the name as something else).
+		switch item.Kind {
+		case pAst.IMPORT_KIND_TEMPLATE:
+			valueFound = valueFound && imported.Template != nil
+		case pAst.IMPORT_KIND_TRIGGER:
+			valueFound = valueFound && imported.Trigger != nil
+		default:
+			valueFound = valueFound && imported.Type != nil
+		}
 		if !moduleFound {
 			self.error(
 				fmt.Sprintf("Module '%s' not found", node.FromModule),
